@@ -48,6 +48,7 @@ class Profile:
     allow_stoch: bool = True
     fully_discrete: float = 0.0
     free_constraints: float = 0.15
+    free_p_true: float = 0.7
     extra: dict = field(default_factory=dict)
 
 
@@ -407,7 +408,7 @@ def model_specs(draw, prof: Profile = Profile()):
         free = d.bool(prof.free_constraints)
 
         def g(shp):
-            m = d.table_bool(shp, 0.7)
+            m = d.table_bool(shp, prof.free_p_true if free else 0.7)
             if not free:
                 idx = (slice(None),) * len(st_) + (0,) * len(ch_)
                 if len(shp) > len(over):
